@@ -6,12 +6,12 @@ def jobs(tier):
     pm=4 if q else 8
     J.append(Job('P-res','C02/p_res.c',defs=['-DPMAX=%d'%pm],unwind=9,unwindset=[('harness',r'i<256',257),('harness',r'j<PMAX',pm+1),('res0_unpack',r'j<info->partitions',pm+1),('res0_unpack',r'j<acc',pm*8+1),('res0_unpack',r'while\(dim>0\)',26),('icount',None,9)],
         checks=['leak'],witnesses=['accepted','accepted with a stage book','rejected'],models=BS,functions=['res0_unpack','res0_free_info','icount'],
-        bounds='any packet <= 600 bytes with partitions <= %d (per-partition loops uniform); 3 arbitrary book descriptors shared by the 256 slots'%pm,weight=4))
+        bounds='any packet <= 600 bytes with partitions <= %d (per-partition loops uniform); 3 arbitrary book descriptors shared by the 256 slots'%pm,weight=4,mem_est=(3 if q else 10)))
     eb,st=(3,19) if q else (4,20)
     J.append(Job('P-book','C02/p_book.c',defs=['-DEB=%d'%eb,'-DSTOR=%d'%st],cuts={'sharedbook.c':['_book_maptype1_quantvals']},unwind=eb+2,
         unwindset=[('vorbis_staticbook_unpack',r'for\(i=0;i<s->entries;\)',eb+7),('vorbis_staticbook_unpack',r'i<quantvals',8*(st-17)+1),('ov_ilog',None,34)],checks=['leak'],
         witnesses=['accepted','accepted with quant values','rejected'],models=BS+['contract stub for _book_maptype1_quantvals (proved by P-quantvals)'],
-        functions=['vorbis_staticbook_unpack','vorbis_staticbook_destroy'],bounds='any packet <= %d bytes, entries <= %d, ordered books start at length >= 28'%(st,eb),weight=4))
+        functions=['vorbis_staticbook_unpack','vorbis_staticbook_destroy'],bounds='any packet <= %d bytes, entries <= %d, ordered books start at length >= 28'%(st,eb),weight=4,mem_est=(6 if q else 20),mem_gb=(12 if q else 40)))
     for e0,e1 in ([(6,7)] if q else [(6,6),(6,7),(8,11)]):
         J.append(Job('K-synth-%d-%d'%(1<<e0,1<<e1),'C02/k_synth.c',defs=['-DE0=%d'%e0,'-DE1=%d'%e1,'-DCH=2'],unwind=66,native_link=['-logg'],
             witnesses=['long block accepted','trackonly accepted','blocksize'],models=['M-bitpack','mapping decode cut to its verdict'],
